@@ -91,7 +91,8 @@ br('C03', 'remote-backend-inner-handler-narrowed', (RM, "            except Exce
                                                     "            except (ValueError, KeyError) as e:\n                logger.exception('Exception occurred while running the main function')\n                result = (False, e)\n            finally:"), None)
 
 # =============================================================================================== C04
-br('C04', 'join-without-timeout', (PR, "            self._release_child()\n            self._child.join(timeout)\n            if self._child.is_alive():\n                if force:", "            self._release_child()\n            self._child.join()\n            if self._child.is_alive():\n                if force:"), 'unbounded-join')
+br('C04', 'join-without-timeout', (PR, "                    self._early_result = ((False, None), self._user_state)\n        self._child.join(timeout)", "                    self._early_result = ((False, None), self._user_state)\n        self._child.join()"), 'unbounded-join')
+br('C04', 'drain-wait-without-timeout', (PR, "            ready = mp.connection.wait([self._comms.parent_end, self._child.sentinel], timeout)", "            ready = mp.connection.wait([self._comms.parent_end, self._child.sentinel])"), 'unbounded-wait')
 br('C04', 'final-return-True', (T, "        alive = self._child.is_alive()\n        if not alive:\n            self._dead = True\n        return not alive\n\n    def _get_result", "        alive = self._child.is_alive()\n        if not alive:\n            self._dead = True\n        return True\n\n    def _get_result"), 'return-True-unguarded')
 br('C04', 'terminate-dead-guard-dropped', (T, "        if not self.is_alive():\n            return True\n\n        try:\n            foreign_raise", "        try:\n            foreign_raise"), 'use-before-guard')
 br('C04', 'force-kill-without-join', (PR, "                    self._child.terminate()\n                    self._child.join(timeout)\n", "                    self._child.terminate()\n"), 'force-kill-without-join')
@@ -99,11 +100,11 @@ br('C04', 'ack-read-unguarded', (PR, "                if self._ctrl_comms.parent
 br('C04', 'thread-terminate-unguarded-injection', (T, "        try:\n            foreign_raise(self._ident, WorkerTerminatedError)\n        except ValueError:\n            pass # the thread has finished in the meantime\n", "        foreign_raise(self._ident, WorkerTerminatedError)\n"), 'escapes:ValueError')
 br('C04', 'remote-wait-unguarded-rpc', (RM, "                try:\n                    send_msg(self._ctrl_sock, ('wait', (remote_timeout, )), comment='ctrl: wait')\n                    result = recv_msg(self._ctrl_sock, comment='ctrl: wait result')\n                    logger.debug('Remote wait result: {}', result)\n                except ConnectionClosedError:\n                    # connection closed, nothing more to do than assume the child is dead\n                    # at the remote side\n                    logger.details('Connection to the remote control thread is closed - assuming child dead')\n                    self._remote_dead = True\n                    result = True\n",
                                         "                send_msg(self._ctrl_sock, ('wait', (remote_timeout, )), comment='ctrl: wait')\n                result = recv_msg(self._ctrl_sock, comment='ctrl: wait result')\n                logger.debug('Remote wait result: {}', result)\n"), 'escapes:ConnectionClosedError')
-br('C04', 'stale-liveness', (PR, "        self._child.join(timeout)\n        alive = self._child.is_alive()\n        if not alive:\n            self._dead = True\n        return not alive\n\n    def terminate", "        alive = self._child.is_alive()\n        self._child.join(timeout)\n        if not alive:\n            self._dead = True\n        return not alive\n\n    def terminate"), 'return-stale')
+br('C04', 'stale-liveness', (PR, "        self._join(timeout)\n        alive = self._child.is_alive()\n        if not alive:\n            self._dead = True\n        return not alive\n\n    def terminate", "        alive = self._child.is_alive()\n        self._join(timeout)\n        if not alive:\n            self._dead = True\n        return not alive\n\n    def terminate"), 'return-stale')
 br('C04', 'force-default-false', (PR, "    def terminate(self, timeout=1, force=True):\n        ''' Default timeout is 1 sec", "    def terminate(self, timeout=1, force=False):\n        ''' Default timeout is 1 sec"), 'force-default')
 br('C04', 'force-kill-condition', (PR, "            if self._child.is_alive():\n                if force:\n                    self._child.terminate()", "            if self._child.is_alive():\n                if force and timeout:\n                    self._child.terminate()"), 'force-kill-condition')
 br('C04', 'remote-wait-without-timeout-arg', (RM, "send_msg(self._ctrl_sock, ('wait', (remote_timeout, )), comment='ctrl: wait')", "send_msg(self._ctrl_sock, ('wait', (None, )), comment='ctrl: wait')"), 'unbounded-rpc')
-br('C04', 'dead-flag-without-evidence', (PP, "        self._child.join(timeout)\n        alive = self._child.is_alive()\n        if not alive:\n            self._dead = True\n        return not alive", "        self._child.join(timeout)\n        alive = self._child.is_alive()\n        self._dead = True\n        return not alive"), 'dead-flag-without-evidence')
+br('C04', 'dead-flag-without-evidence', (PP, "        self._join(timeout)\n        alive = self._child.is_alive()\n        if not alive:\n            self._dead = True\n        return not alive", "        self._join(timeout)\n        alive = self._child.is_alive()\n        self._dead = True\n        return not alive"), 'dead-flag-without-evidence')
 br('C04', 'ctrl-sock-use-after-close', (RM, "            if not self._remote_dead:\n                logger.debug('Sending a wait message with args: {}', (remote_timeout, ))", "            if True:\n                logger.debug('Sending a wait message with args: {}', (remote_timeout, ))"), 'ctrl-sock-use-after-close')
 
 # =============================================================================================== C05
@@ -120,7 +121,7 @@ br('C05', 'result-sent-twice', (PP, "            result = self.run(*args, **kwar
 br('C05', 'do_work-returns-zero', (PT, "            self._send_result(result)\n\n        return self._counter", "            self._send_result(result)\n\n        return 0"), 'return-not-counter')
 br('C05', 'counter-not-reset', (PE, "    def _init_child(self):\n        self._counter = 0\n        self._stop = False", "    def _init_child(self):\n        self._stop = False"), 'counter-not-reset')
 br('C05', 'send_result-sends-args', (PRM, "            result = self.run(*args, **kwargs)\n            self._send_result(result)", "            result = self.run(*args, **kwargs)\n            self._send_result(args)"), 'send-result-arg')
-br('C05', 'wait-does-not-close', (PP, "        if not self.is_alive():\n            return True\n        self.close()\n        self._child.join(timeout)", "        if not self.is_alive():\n            return True\n        self._child.join(timeout)"), 'wait-does-not-release')
+br('C05', 'wait-does-not-close', (PP, "        if not self.is_alive():\n            return True\n        self.close()\n        self._join(timeout)", "        if not self.is_alive():\n            return True\n        self._join(timeout)"), 'wait-does-not-release')
 br('C05', 'result-message-flag', (PT, "        self._results_pipe.child_end.put((self._counter, True, result, self.id))", "        self._results_pipe.child_end.put((self._counter, False, result, self.id))"), None)
 
 # =============================================================================================== C06
@@ -406,7 +407,7 @@ ok('reap-loop-over-local-snapshot', (RS, "            for child in itertools.cha
 br('C19', 'seed-prune-outside-the-lock', (W, "            Worker._active_children = [child for child in Worker._active_children if child.is_alive()]\n            cpy = copy.copy(Worker._active_children)\n", "            cpy = copy.copy(Worker._active_children)\n        cpy = [child for child in cpy if child.is_alive()]\n        with Worker._children_lock:\n            Worker._active_children = cpy\n"), 'prune-not-atomic')
 
 br('C05', 'seed2-deepcopy-memo-outside-loop', [(PT, "        while not self._stop:\n            args = list(copy.deepcopy(self._args))\n            kwargs = copy.deepcopy(self._kwargs)", "        memo = {}\n        while not self._stop:\n            args = list(copy.deepcopy(self._args, memo))\n            kwargs = copy.deepcopy(self._kwargs, memo)")], 'defaults-loop-carried')
-br('C01', 'seed2-exitcode-shortcut-discards-outcome', (PR, "        if self._result is None:\n            #assert not self._comms[0].empty()", "        if self._result is None:\n            if self._child.exitcode:\n                self._result = (False, None)\n                return self._result\n            #assert not self._comms[0].empty()"), 'fallback-without-reading-the-pipe')
+br('C01', 'seed2-exitcode-shortcut-discards-outcome', (PR, "        if self._result is None:\n            self._result = self._early_result\n", "        if self._result is None:\n            if self._child.exitcode:\n                self._result = (False, None)\n                return self._result\n            self._result = self._early_result\n"), 'fallback-without-reading-the-pipe')
 br('C07', 'seed2-next-input-taken-on-live-failure', (PO, "                                logger.exception('Enqueueing failed for current input and worker {} but the worker is still alive - will try next input', worker)\n                                continue", "                                logger.exception('Enqueueing failed for current input and worker {} but the worker is still alive - will try next input', worker)\n                                has_data, from_retries, inp = next_inputs(worker)\n                                continue"), 'input-taken-in-loop')
 br('C10', 'seed2-chunked-send', (RM, "        sock.sendall(data_len + data)", "        sock.sendall(data_len)\n        view = memoryview(data)\n        for offset in range(0, len(view), 1 << 20):\n            sock.send(view[offset:offset + (1 << 20)])"), 'write:send')
 
@@ -420,3 +421,8 @@ br('C06', 'seed2-marker-forwarded-conditionally', (PRM, "                       
 br('C03', 'frame-ident-overwritten-in-init-child', (PE, "    def _init_child(self):\n        self._counter = 0", "    def _init_child(self):\n        self._ident = None\n        self._counter = 0"), 'unexpected-writer:_ident')
 br('C04', 'frame-remote-dead-reset-in-enqueue', (PRM, "        try:\n            send_msg(self._socket, (args, kwargs), comment='data: new args')", "        self._remote_dead = False\n        try:\n            send_msg(self._socket, (args, kwargs), comment='data: new args')"), 'unexpected-writer:_remote_dead')
 br('C06', 'frame-cleaned-up-preset', (PT, "    def _send_result(self, result):\n        self._counter += 1", "    def _send_result(self, result):\n        self._cleaned_up = result is None\n        self._counter += 1"), 'unexpected-writer:_cleaned_up')
+
+br('C09', 'seed2-pool-marked-closed-early', (PO, "        force_args = {}\n        if force is not None:", "        self._pool_closed = True\n        force_args = {}\n        if force is not None:"), 'pool-marked-closed-before-cleanup')
+
+br('C02', 'f12-wait-joins-without-draining', (PR, "        if not self.is_alive():\n            return True\n        self._join(timeout)\n        alive = self._child.is_alive()\n        if not alive:\n            self._dead = True\n        return not alive\n\n    def terminate", "        if not self.is_alive():\n            return True\n        self._child.join(timeout)\n        alive = self._child.is_alive()\n        if not alive:\n            self._dead = True\n        return not alive\n\n    def terminate"), 'join-before-drain')
+br('C01', 'f12-early-result-dropped', (PR, "        if self._result is None:\n            self._result = self._early_result\n", "        if self._result is None:\n"), 'early-read-not-used')
